@@ -112,7 +112,8 @@ def _variants(case):
                 yield dict(case, invokes=invs[:i] + [small] + invs[i + 1:])
 
 
-def shrink(case, bucket, workdir, tools, budget=10):
+def shrink(case, bucket, msg, workdir, tools, budget=10):
+    """-> (smaller case failing in the same bucket, its message)"""
     best = case
     tries = 0
     progress = True
@@ -127,12 +128,12 @@ def shrink(case, bucket, workdir, tools, budget=10):
                 fail = None
             G.cleanup(wdir)
             if fail and fail[0] == bucket:
-                best = cand
+                best, msg = cand, fail[1]
                 progress = True
                 break
             if tries >= budget:
                 break
-    return best
+    return best, msg
 
 
 def account(ctx, case, status, outc):
@@ -195,10 +196,10 @@ def run(ctx):
                 if bucket in ctx.reported:
                     continue
                 plain = {k: case[k] for k in case if k != "uid"}
-                small = plain
+                small, msg = plain, fail[1]
                 if ctx.classify(dict(stored(plain), bucket=bucket)) is None:
-                    small = shrink(plain, bucket, wdir, tools)
-                ctx.fail_now(bucket, stored(small), fail[1])
+                    small, msg = shrink(plain, bucket, msg, wdir, tools)
+                ctx.fail_now(bucket, stored(small), msg)
         finally:
             G.cleanup(wdir)
 
@@ -224,4 +225,77 @@ def replay(case):
     return None
 
 
-CLASSIFIERS = {}
+# --------------------------------------------------------------------------
+# known-finding classifiers (features of the failing INPUT)
+# --------------------------------------------------------------------------
+def _invoke_occurrences(case):
+    """Per invoke: {entity: [(call index, text as written, call args)]}."""
+    alg = case["alg"]
+    for inv in alg["invokes"]:
+        occ = {}
+        for cnum, call in enumerate(inv["calls"]):
+            for text in call["args"]:
+                ent = G.entity_of(G.canon(text), alg)
+                if ent is not None:
+                    occ.setdefault(ent, []).append((cnum, text, call["args"]))
+        yield occ
+
+
+def _is_codeblock_form(text, args):
+    """fparser2 parses a functor whose argument list contains a bare
+    (unsigned, unparenthesised) real literal as a Structure_Constructor, in
+    which `a%b` / `a%b(1)%c` (last part a plain name) is a
+    Proc_Component_Ref - a CodeBlock in the PSyIR."""
+    import re
+    ctext = G.canon(text)
+    if "%" not in ctext or ctext.endswith(")"):
+        return False
+    return any(re.fullmatch(r"\d+\.\d*(_\w+)?", G.canon(a)) for a in args)
+
+
+def psyir_member_case(case):
+    """PSyIR algorithm path: a structure-component argument is repeated in
+    one invoke with different letter case (SymbolicMaths.equal compares
+    member names case-sensitively => passed twice, declared once)."""
+    if case.get("path") != "psyir" or \
+            case.get("bucket") != "psyir:static:arg-count":
+        return False
+    for occ in _invoke_occurrences(case):
+        for ent, uses in occ.items():
+            if "%" in ent and \
+                    len({"".join(t.split()) for _, t, _ in uses}) > 1:
+                return True
+    return False
+
+
+def psyir_codeblock_component(case):
+    """PSyIR algorithm path: a structure-component argument that becomes a
+    CodeBlock (see _is_codeblock_form) is never de-duplicated."""
+    if case.get("path") != "psyir" or \
+            case.get("bucket") != "psyir:static:arg-count":
+        return False
+    for occ in _invoke_occurrences(case):
+        for uses in occ.values():
+            if len(uses) > 1 and any(_is_codeblock_form(t, a)
+                                     for _, t, a in uses):
+                return True
+    return False
+
+
+def psyir_named_single_builtin(case):
+    """PSyIR algorithm path: a NAMED invoke that contains exactly one
+    built-in: LFRicAlgorithmInvokeCall._def_routine_root_name ignores the
+    name (calls invoke_<index>), the PSy layer defines invoke_<name>."""
+    if case.get("path") != "psyir" or \
+            case.get("bucket") != "psyir:static:no-routine":
+        return False
+    for inv in case["alg"]["invokes"]:
+        if inv.get("name") and len(inv["calls"]) == 1 and \
+                G.kernel_spec(inv["calls"][0]["k"])[1]:
+            return True
+    return False
+
+
+CLASSIFIERS = {"psyir_member_case": psyir_member_case,
+               "psyir_codeblock_component": psyir_codeblock_component,
+               "psyir_named_single_builtin": psyir_named_single_builtin}
